@@ -62,6 +62,9 @@ def run_case(rec: Recorder, case: dict[str, typing.Any]) -> None:
             else:
                 if case["headers_at"] == "manager":
                     lvl["headers"] = make_headers(hspec)
+                elif case["headers_at"] == "request-over-sensitive-defaults":
+                    # the manager has sensitive defaults of its own; the request brings its own (sensitive-only) headers
+                    lvl["headers"] = {"Authorization": "manager-default-secret", "Cookie": "default=1"}
                 if case["client"] == "manager":
                     client = urllib3.PoolManager(**lvl)
                 else:
@@ -217,6 +220,21 @@ def run_shard(ctx: Ctx, rec: Recorder) -> None:
             rec.case(["pool", to, form, code])
             run_case(rec, case)
     # (ii) random
+    # sensitive-only per-request headers over a manager that has sensitive default headers: after a cross-origin
+    # strip nothing is left, and "nothing" must not turn into the manager's defaults
+    for client in ("manager", "proxy"):
+        for code in (301, 302, 303, 307, 308):
+            for pairs in ([["Authorization", "secret"]], [["authorization", "secret"], ["Cookie", "a=b"]], [["Cookie", "a=b"]], [["Proxy-Authorization", "x"], ["Authorization", "secret"]]):
+                for container in ("dict", "hd"):
+                    for hops_to in (["B"], ["A", "B"], ["B", "C"]):
+                        idx += 1
+                        if not ctx.mine(idx):
+                            continue
+                        hops = [{"code": code, "to": t, "form": "absolute"} for t in hops_to]
+                        case = {"client": client, "hops": hops, "method": "GET", "headers": {"container": container, "pairs": pairs}, "headers_at": "request-over-sensitive-defaults", "strip": None, "policy_at": "none", "fail_first": 0}
+                        rec.case(["sens-defaults", client, code, pairs, container, hops_to])
+                        rec.mon("sensitive_only_over_defaults")
+                        run_case(rec, case)
     n = ctx.pick(5000, 150000)
     for i in range(n):
         if ctx.out_of_time(0.9):
